@@ -374,12 +374,25 @@ class Run:
         print(s, flush=True)
 
 
+def _acyclic(obj, seen=()):
+    """JSON-able copy of obj in which a container met again on its own path is replaced by a marker (observations
+    may hold self-referential values, e.g. a YAML alias cycle)."""
+    if isinstance(obj, (dict, list, tuple)):
+        if any(obj is s for s in seen):
+            return "<cycle>"
+        seen = seen + (obj,)
+        if isinstance(obj, dict):
+            return {str(k): _acyclic(v, seen) for k, v in obj.items()}
+        return [_acyclic(v, seen) for v in obj]
+    return obj
+
+
 def write_replay(prop, seed, n, payload):
     d = os.path.join(OUT, "replays")
     os.makedirs(d, exist_ok=True)
     path = os.path.join(d, "%s-%s-%d.json" % (prop, seed, n))
     with open(path, "w") as f:
-        json.dump(payload, f, indent=1, sort_keys=True, default=str)
+        json.dump(_acyclic(payload), f, indent=1, sort_keys=True, default=str)
     return path
 
 
@@ -398,7 +411,7 @@ def write_evidence(prop, tier, seed, coverage, assumptions, wall, violations):
     }
     tmp = os.path.join(d, prop + ".json.tmp")
     with open(tmp, "w") as f:
-        json.dump(ev, f, indent=1, sort_keys=True, default=str)
+        json.dump(_acyclic(ev), f, indent=1, sort_keys=True, default=str)
     os.replace(tmp, os.path.join(d, prop + ".json"))
 
 
@@ -425,6 +438,38 @@ def shrink(mod, case, still_fails, rounds=12):
 
 
 def main(argv=None):
+    """Runs the check; an internal failure of the machinery itself (a harness or framework exception) is never a silent
+    crash: the property is then not shown to hold, so it is reported as a violation without failing input, naming the
+    exception in the replay file."""
+    try:
+        return _main(argv)
+    except SystemExit:
+        raise
+    except BaseException as ex:  # noqa: BLE001
+        import traceback
+
+        if isinstance(ex, KeyboardInterrupt):
+            raise
+        args = list(sys.argv[1:] if argv is None else argv)
+        prop = next((a for a in args if re.fullmatch(r"C\d\d", a)), "C??")
+        seed = int(os.environ.get("VERIF_SEED", "20260926"))
+        tier = os.environ.get("VERIF_TIER", "quick")
+        if "--tier" in args:
+            tier = args[args.index("--tier") + 1]
+        tb = traceback.format_exc()
+        path = write_replay(prop, seed, 0, {"property": prop, "kind": "check-machinery-failed", "seed": seed, "tier": tier,
+                                            "broken": {"stage": "harness", "exception": repr(ex), "traceback": tb[-4000:]}})
+        try:
+            write_evidence(prop, tier, seed, {"checker_cmd": "bin/check %s" % prop, "trusted_base": [], "obligations": 0, "discharged": 0,
+                                              "evaluations": 0, "distinct_nontrivial": 0, "rule": "the check's own machinery raised %r before a verdict" % ex,
+                                              "samples": [tb[-600:]], "traces_validated_against_impl": 0, "exhaustive": False}, [], 0.0, 1)
+        except Exception:
+            pass
+        print("VIOLATION property=%s replay=%s no-failing-input-found" % (prop, path))
+        return 1
+
+
+def _main(argv=None):
     import argparse
 
     ap = argparse.ArgumentParser()
